@@ -501,3 +501,37 @@ Section FlushableInstance.
   Qed.
 End FlushableInstance.
 
+(* ------------------------------------------------------------------ non-vacuity of the Wait machinery *)
+(* a blocked Acquire waits on the condition variable, another goroutine releases, the waiter re-acquires and
+   succeeds; valid for any kind assignment that makes every semaphore method exclusive (the real table does) *)
+Definition m11 : metric := mkM 1 1.
+Definition sem_blocking_trace : list (action sop sret) :=
+  [Inv sop sret 0 (STry m11); Acq sop sret 0; Body sop sret 0; Rel sop sret 0; Ret sop sret 0 (SBool true); Inv sop sret 1 (SAcquire m11 1); Acq sop sret 1; Body sop sret 1; Wait sop sret 1; Inv sop sret 0 (SRelease m11); Acq sop sret 0; Body sop sret 0; Rel sop sret 0; Ret sop sret 0 (SOut []); Acq sop sret 1; Body sop sret 1; Rel sop sret 1; Ret sop sret 1 (SBool true)].
+
+Lemma sem_blocking_trace_exec : forall kind : sop -> lkind, (forall o, kind o = KExcl) ->
+  exists c, exec sstate sop sret sloc sem_linit sem_mstep sem_fin sem_waits sem_wstep kind
+                 (mzero, mkM 1 10) sem_blocking_trace c.
+Proof.
+  intros kind Hk. eexists. unfold sem_blocking_trace.
+  change [Inv sop sret 0 (STry m11); Acq sop sret 0; Body sop sret 0; Rel sop sret 0; Ret sop sret 0 (SBool true); Inv sop sret 1 (SAcquire m11 1); Acq sop sret 1; Body sop sret 1; Wait sop sret 1; Inv sop sret 0 (SRelease m11); Acq sop sret 0; Body sop sret 0; Rel sop sret 0; Ret sop sret 0 (SOut []); Acq sop sret 1; Body sop sret 1; Rel sop sret 1; Ret sop sret 1 (SBool true)]
+    with (((((((((((((((((([] ++ [Inv sop sret 0 (STry m11)]) ++ [Acq sop sret 0]) ++ [Body sop sret 0]) ++ [Rel sop sret 0]) ++ [Ret sop sret 0 (SBool true)]) ++ [Inv sop sret 1 (SAcquire m11 1)]) ++ [Acq sop sret 1]) ++ [Body sop sret 1]) ++ [Wait sop sret 1]) ++ [Inv sop sret 0 (SRelease m11)]) ++ [Acq sop sret 0]) ++ [Body sop sret 0]) ++ [Rel sop sret 0]) ++ [Ret sop sret 0 (SOut [])]) ++ [Acq sop sret 1]) ++ [Body sop sret 1]) ++ [Rel sop sret 1]) ++ [Ret sop sret 1 (SBool true)])%list.
+  repeat (eapply e_snoc); [apply e_nil| | | | | | | | | | | | | | | | | |].
+  - apply s_inv; reflexivity.
+  - eapply s_acq_excl; [reflexivity | apply Hk | intros t' [o' [l' H]]; unfold upd in H; simpl in H; destruct t' as [|[|t']]; simpl in H; discriminate].
+  - eapply s_body; [reflexivity|reflexivity|reflexivity|vm_compute; reflexivity].
+  - eapply s_rel; [reflexivity|vm_compute; reflexivity].
+  - eapply s_ret; reflexivity.
+  - apply s_inv; reflexivity.
+  - eapply s_acq_excl; [reflexivity | apply Hk | intros t' [o' [l' H]]; unfold upd in H; simpl in H; destruct t' as [|[|t']]; simpl in H; discriminate].
+  - eapply s_body; [reflexivity|reflexivity|reflexivity|vm_compute; reflexivity].
+  - eapply s_wait; [reflexivity|reflexivity|reflexivity].
+  - apply s_inv; reflexivity.
+  - eapply s_acq_excl; [reflexivity | apply Hk | intros t' [o' [l' H]]; unfold upd in H; simpl in H; destruct t' as [|[|t']]; simpl in H; discriminate].
+  - eapply s_body; [reflexivity|reflexivity|reflexivity|vm_compute; reflexivity].
+  - eapply s_rel; [reflexivity|vm_compute; reflexivity].
+  - eapply s_ret; reflexivity.
+  - eapply s_acq_excl; [reflexivity | apply Hk | intros t' [o' [l' H]]; unfold upd in H; simpl in H; destruct t' as [|[|t']]; simpl in H; discriminate].
+  - eapply s_body; [reflexivity|reflexivity|reflexivity|vm_compute; reflexivity].
+  - eapply s_rel; [reflexivity|vm_compute; reflexivity].
+  - eapply s_ret; reflexivity.
+Qed.
